@@ -588,6 +588,17 @@ func (e *SpecEnv) selectField(base TV, name string) TV {
 		if !ok {
 			return e.fail("selector on %T", v)
 		}
+		// a field reached through a pointer is loaded from its heap location, so that a lazily
+		// materialised field (map, slice, pointer) is materialised once and shared with the code
+		if p.Loc != nil && !e.inOld {
+			if stt, ok := pt.Elem().Underlying().(*types.Struct); ok {
+				for i := 0; i < stt.NumFields(); i++ {
+					if stt.Field(i).Name() == name {
+						return TV{e.x.load(e.st, p.Loc.Sub(i)), stt.Field(i).Type()}
+					}
+				}
+			}
+		}
 		if p.Loc == nil {
 			v = e.x.symbolic(e.st, pt.Elem(), e.x.sym.Fresh("spec.nilderef", SBool).S)
 		} else {
@@ -645,6 +656,30 @@ func (e *SpecEnv) index(base, idx TV) TV {
 		if isStringMap(b.Typ) {
 			val, _ := e.x.mapLookupSS(e.st, b, e.term(idx))
 			return TV{VScalar{val}, types.Typ[types.String]}
+		}
+		// any other map: the value stored under a key whose entry is known (has_key / an earlier lookup)
+		if b.Obj >= 0 {
+			if mg, ok := e.st.heap[b.Obj].(*MapGen); ok {
+				k := e.term(idx)
+				elem := b.Typ.Underlying().(*types.Map).Elem()
+				for i, en := range mg.Entries {
+					if en.Key.S == k.S {
+						v := e.x.force(e.st, en.Val)
+						cp := *mg
+						cp.Entries = append([]MapEntry(nil), mg.Entries...)
+						cp.Entries[i].Val = v
+						e.st.heap[b.Obj] = &cp
+						return TV{v, elem}
+					}
+				}
+				if mg.Sym {
+					ent := MapEntry{Key: k, Present: e.x.sym.Fresh(mg.Name+".has", SBool), Val: e.x.symbolic(e.st, elem, fmt.Sprintf("%s[%s]", mg.Name, k.S))}
+					cp := *mg
+					cp.Entries = append(append([]MapEntry(nil), mg.Entries...), ent)
+					e.st.heap[b.Obj] = &cp
+					return TV{ent.Val, elem}
+				}
+			}
 		}
 	case specTerm:
 		if b.T.Sort == SMapSS {
@@ -716,6 +751,16 @@ func (e *SpecEnv) binary(n *ast.BinaryExpr) TV {
 	if pa, ok := e.x.force(e.st, a.V).(VPtr); ok {
 		if pb, ok := e.x.force(e.st, b.V).(VPtr); ok {
 			eq := e.x.ptrEq(pa, pb)
+			if n.Op == token.EQL {
+				return TV{VScalar{eq}, boolT}
+			}
+			return TV{VScalar{Not(eq)}, boolT}
+		}
+	}
+	// interface values (errors): identity of the dynamic value
+	if ia, ok := e.x.force(e.st, a.V).(VIface); ok {
+		if ib, ok := e.x.force(e.st, b.V).(VIface); ok && (n.Op == token.EQL || n.Op == token.NEQ) {
+			eq := e.x.ifaceEq(e.st, ia, ib)
 			if n.Op == token.EQL {
 				return TV{VScalar{eq}, boolT}
 			}
